@@ -69,6 +69,9 @@ type Unit struct {
 	Files       []string          `json:"files"`   // harness sources under /verif/harness/<package>/
 	Harnesses   []HarnessSpec     `json:"harnesses"`
 	InitPkgs    []string          `json:"init_pkgs"`
+	// Solver: command line of the deciding solver for this unit (default: z3-new -in). cvc5 decides
+	// long chains of 64-bit linear inequalities (clock arithmetic) that z3's bit-blaster does not.
+	Solver      string            `json:"solver"`
 	NoopPkgs    []string          `json:"noop_pkgs"`
 	Replace     map[string]string `json:"replace"`
 	// ReplaceAlways: replacements that also apply when native traces are re-executed concretely
@@ -529,7 +532,7 @@ func runHarness(p *Program, spec *Unit, hs *HarnessSpec, tier string, o *runOpts
 		wg.Add(1)
 		go func(w int) {
 			defer wg.Done()
-			solver, err := NewSolver(solverArgv(), ts.QueryTimeoutS*1000)
+			solver, err := NewSolver(solverArgvFor(spec), ts.QueryTimeoutS*1000)
 			if err != nil {
 				mu.Lock()
 				firstErr = err
@@ -634,6 +637,9 @@ func cmdReplay(args []string) int {
 		_, failed, end := runConcrete(p, u, hs, *tier, rf.Nondet)
 		fmt.Printf("engine (concrete re-run): ended %s %s; failed assertions %v\n", end.kind, end.msg, failed)
 		if ok {
+			if os.Getenv("VERIF_REPLAY_VERBOSE") != "" {
+				fmt.Println(lastLines(out, 80))
+			}
 			fmt.Printf("native: assertion %s fails on the current tree\nVIOLATION property=%s replay=%s\n", rf.Assert, spec.Property, *file)
 			return 1
 		}
